@@ -502,7 +502,7 @@ def run_case(c, rng):
             return
         name = fresh('PU')
         pat = pick(sh.patterns) if rng.random() < 0.4 else None
-        heads = [k for k, t in sh.curves.items() if t == 'HEAD']
+        heads = [k for k, t in sh.curves.items() if t == 'HEAD' or t is None]
         if heads and rng.random() < 0.6:
             cv = rng.choice(sorted(heads))
             def upd():
@@ -523,7 +523,7 @@ def run_case(c, rng):
         cv = None
         setting = 10.0
         if vt == 'GPV':
-            hl = [k for k, t in sh.curves.items() if t == 'HEADLOSS']
+            hl = [k for k, t in sh.curves.items() if t == 'HEADLOSS' or t is None]
             if not hl:
                 return
             cv = rng.choice(sorted(hl))
@@ -539,9 +539,10 @@ def run_case(c, rng):
 
     def op_add_curve():
         name = fresh('CRV')
-        t = rng.choice(CURVE_TYPES)
+        t = rng.choice(CURVE_TYPES + [None])       # an untyped curve is typed by the registry when a pump / GPV starts to use it
         pts = {'HEAD': [(0.0, 40.0), (0.05, 30.0), (0.1, 5.0)], 'EFFICIENCY': [(0.0, 50.0), (0.1, 80.0)],
-               'VOLUME': [(0.0, 0.0), (2.0, 100.0), (6.0, 400.0)], 'HEADLOSS': [(0.0, 0.0), (0.1, 5.0)]}[t]
+               'VOLUME': [(0.0, 0.0), (2.0, 100.0), (6.0, 400.0)], 'HEADLOSS': [(0.0, 0.0), (0.1, 5.0)],
+               None: [(0.0, 40.0), (0.05, 30.0), (0.1, 5.0)]}[t]
         return do('add_curve(%r, %s)' % (name, t), lambda: wn.add_curve(name, t, pts), 'ok', lambda: sh.curves.__setitem__(name, t), 'add_curve')
 
     def op_add_source():
@@ -721,7 +722,7 @@ def run_case(c, rng):
                       lambda: setattr(wn.get_link(pu), 'speed_pattern_name', pat), 'ok', upd, 'reassign_ref')
         if form < 0.65:
             hp = [l for l, d in sh.links.items() if d['sub'] == 'HEAD']
-            heads = [k for k, t in sh.curves.items() if t == 'HEAD']
+            heads = [k for k, t in sh.curves.items() if t == 'HEAD' or t is None]
             if not hp or not heads:
                 return
             pu, cv = rng.choice(sorted(hp)), rng.choice(sorted(heads))
@@ -745,7 +746,7 @@ def run_case(c, rng):
                       lambda: setattr(wn.get_node(t), 'vol_curve_name', cv), 'ok', upd, 'reassign_ref')
         if form < 0.9:
             g = [l for l, d in sh.links.items() if d['sub'] == 'GPV']
-            hl = [k for k, ty in sh.curves.items() if ty == 'HEADLOSS']
+            hl = [k for k, ty in sh.curves.items() if ty == 'HEADLOSS' or ty is None]
             if not g or not hl:
                 return
             v, cv = rng.choice(sorted(g)), rng.choice(sorted(hl))
